@@ -424,11 +424,15 @@ func (p *Pollard) Verify(delHashes []Hash, proof Proof, remember bool) error {
 			"but have %d deletions", len(delHashes))
 	}
 
+	// Each root candidate must match the root of the tree that its targets
+	// are in.
 	rootMatches := 0
-	for i := range p.Roots {
-		if len(rootCandidates) > rootMatches &&
-			p.Roots[len(p.Roots)-(i+1)].data == rootCandidates[rootMatches] {
-			rootMatches++
+	trees := targetTrees(p.NumLeaves, proof.Targets)
+	if len(trees) == len(rootCandidates) {
+		for i, tree := range trees {
+			if tree < len(p.Roots) && p.Roots[tree].data == rootCandidates[i] {
+				rootMatches++
+			}
 		}
 	}
 	// Error out if all the rootCandidates do not have a corresponding
